@@ -40,6 +40,7 @@ func (o *OverlayFS) Open(name string) (fs.File, error) {
 func (o *OverlayFS) ReadDir(name string) ([]fs.DirEntry, error) {
 	merged := make(map[string]fs.DirEntry)
 	var lastErr error
+	found := false // whether any layer has the directory, even if empty
 
 	// Iterate through chain (upper layers first) so upper layers override lower
 	for _, chainfs := range o.chainFS {
@@ -49,6 +50,7 @@ func (o *OverlayFS) ReadDir(name string) ([]fs.DirEntry, error) {
 
 		entries, err := fs.ReadDir(chainfs, name)
 		if err == nil {
+			found = true
 			for _, e := range entries {
 				// Only add if not already present (upper layers take precedence)
 				if _, exists := merged[e.Name()]; !exists {
@@ -61,8 +63,14 @@ func (o *OverlayFS) ReadDir(name string) ([]fs.DirEntry, error) {
 	}
 
 	// If no filesystem had this directory, return error
-	if len(merged) == 0 && lastErr != nil {
-		return nil, lastErr
+	if !found {
+		if lastErr != nil {
+			return nil, lastErr
+		}
+		// No layer was consulted (all nil): only the root exists.
+		if name != "." {
+			return nil, &fs.PathError{Op: "readdir", Path: name, Err: fs.ErrNotExist}
+		}
 	}
 
 	entries := make([]fs.DirEntry, 0, len(merged))
